@@ -48,13 +48,15 @@ CLAIMED = {
          'pcm_offset <= pos established; every failing exit after the handle was touched has dumped position and decoder. '
          'Reachability of targets and landing precision are not decided.',
          'Trusted: clang 14 front end; K3 effect table for externals; interval abstraction.', 'DESIGN.md 4/C08'),
- 'C03': ('error-discipline (def-use) analysis of fallible decode calls + CFG path rules for the open failure paths (typestate and link-table rules are added as they are built)',
-         'Every call in vorbisfile.c to a decode/set-up function that can fail has its result observed on all paths; failed '
+ 'C03': ('finite-state typestate analysis of the handle (ready_state x decoder/block liveness x packet-queue emptiness) with exact per-entry-state relational summaries of every internal function + error-discipline (def-use) analysis of fallible decode calls + CFG path rules for the open failure paths',
+         'Every public vorbisfile function, entered in any consistent handle state, returns in a consistent state on every path, and '
+         'every decode call that dereferences the decoder or block is reached only with it initialised (typestate, all paths, all '
+         'call chains). Every call in vorbisfile.c to a decode/set-up function that can fail has its result observed on all paths; failed '
          'opens detach the data source before ov_clear on every path and the close callback has one guarded site. These are '
          'necessary conditions of memory safety of the handle (a rejected packet never reaches the accumulator; a failed open '
          'never closes the source). Loop termination over arbitrary page structure is not decided.',
-         'Trusted: clang 14 front end; libogg contract for cleared stream states.', 'DESIGN.md 4/C03'),
- 'C12': ('call-graph-derived I/O-capable and error-carrying function sets + def-use observation analysis + path rules with interval/excluded-constant abstraction of error codes',
+         'Trusted: clang 14 front end; libogg contract (a packetpeek/packetout result <= 0 means no packet is queued and only pagein changes that; cleared stream states fail harmlessly); one requires-live site is an assumption with its reason (engine/typestate.py).', 'DESIGN.md 4/C03, 3.3 K5'),
+ 'C12': ('call-graph-derived I/O-capable and error-carrying function sets + def-use observation analysis + path rules with interval/excluded-constant abstraction of error codes + finite-state typestate analysis of the handle (usable after failure)',
          'Every result of an I/O-capable call is observed; where a failure is tested and the edge runs to a return the returned '
          'value is negative (documented EOF mappings excepted); the close callback has one guarded site and failed opens '
          'detach the source first; the sync layer is given exactly the positive count the read callback returned; the seek '
